@@ -205,6 +205,14 @@ func observeSeq(prop interface{}, ref []int, vals []val) (aspect, detail string)
 			return "At", fmt.Sprintf("element %d is %s, list has %s", i, got, want[i])
 		}
 	}
+	// the JSON name the property serialises under: '<name>Map' exactly when it holds a single language map
+	if nm := method(prop, "Name"); nm.IsValid() {
+		got := nm.Call(nil)[0].String()
+		wantMap := len(ref) == 1 && vals[ref[0]].kind == "RDFLangString"
+		if strings.HasSuffix(got, "Map") != wantMap {
+			return "Name", fmt.Sprintf("Name() = %q with %d element(s) of kinds %v", got, len(ref), want)
+		}
+	}
 	// forward walk
 	var fw []string
 	cur := method(prop, "Begin").Call(nil)[0]
